@@ -5,13 +5,13 @@ package main
 // The log is validated by Trace_PongoApi.tla (which has no action for those three).
 
 import (
-	"sort"
 	"bufio"
 	"encoding/json"
 	"fmt"
 	"math"
 	"os"
 	"os/exec"
+	"sort"
 	"strconv"
 	"strings"
 	"time"
